@@ -286,11 +286,14 @@ def main():
         # a caller of the interface under contention: the real parallel multi-TAN tiler, several images landing in ONE
         # tile, its workers interleaved at every lock / read / write / queue step; the final tile must be the serial one
         try:
-            n_call = 80 if h.deep else 36
+            n_call = 120 if h.deep else 72
             for ci in range(n_call):
                 nimg = rng.choice([2, 3, 4])
                 par = rng.choice([2, 3, 3])
-                if ci % 2 == 0:
+                if ci % 3 == 2:
+                    # a worker put to sleep right after it has taken a tile's lock: the others finish, wind down, or queue up behind it
+                    chooser, cname = simmp.DelayAfterChooser(rng.randrange(2 ** 31), kinds=("lock",), prob=0.5, max_sleep=60, timeouts_while_asleep=True), "holder-delayed"
+                elif ci % 2 == 0:
                     chooser, cname = simmp.PCTChooser(rng.randrange(2 ** 31), depth=rng.choice([2, 3, 4])), "pct"
                 else:
                     chooser, cname = simmp.RandomChooser(rng.randrange(2 ** 31), timeout_weight=0.1), "random"
